@@ -496,7 +496,7 @@ class Exec(object):
             if sBad is not None:
                 r = self.hook('binop', sBad, op, a, b, node)
                 if r is not None: outs += r
-                else: outs.append(self.raise_(sBad, 'TypeError'))
+                else: self._no_operator_model(sBad, a, b); outs.append(self.raise_(sBad, 'TypeError'))
             if sN is not None:
                 ints = z3.And(z3.Not(Val.is_r(a)), z3.Not(Val.is_r(b)))
                 ia = z3.If(Val.is_b(a), z3.If(Val.bv(a), 1, 0), Val.iv(a)); ib = z3.If(Val.is_b(b), z3.If(Val.bv(b), 1, 0), Val.iv(b))
@@ -535,9 +535,17 @@ class Exec(object):
                     if sT is not None:
                         r = self.hook('binop', sT, op, a, b, node)
                         if r is not None: outs += r
-                        else: outs.append(self.raise_(sT, 'TypeError'))
+                        else: self._no_operator_model(sT, a, b); outs.append(self.raise_(sT, 'TypeError'))
             return outs
         raise Unsupported('binop ' + type(op).__name__)
+
+    def _no_operator_model(self, st, a, b):
+        """the fall-back for an arithmetic operator on non-numeric operands is `raises TypeError`; that is wrong for library types that define the
+        operator themselves (dates, sets, counters) when the spec in force has no rule for it: undecided, never a verdict (round 10, C16-j1)"""
+        for x in (a, b):
+            k = self.kind_of(st, x)
+            if isinstance(k, str) and k in ('datetime', 'date', 'timedelta', 'set', 'frozenset', 'Counter'):
+                raise Unsupported('arithmetic operator on a %s without a model' % k)
 
     def e_BoolOp(self, e, st):
         is_and = isinstance(e.op, ast.And)
